@@ -4,6 +4,7 @@ import (
 	"bytes"
 	"encoding/json"
 	"fmt"
+	"github.com/dominant-strategies/go-quai/p2p/pb"
 	"github.com/dominant-strategies/go-quai/params"
 	"github.com/dominant-strategies/go-quai/rlp"
 	"github.com/dominant-strategies/go-quai/trie"
@@ -334,6 +335,14 @@ func TestC14(t *testing.T) {
 					}
 					simkit.Global.Inc("disk_roundtrips")
 				}
+				if d := checkP2PFrames(bi); d != "" {
+					fail("wire-roundtrip", "object="+strings.SplitN(d, ":", 2)[0], fmt.Sprintf("block #%d: %s", bi.Number, d))
+					return
+				}
+				if d := checkTerminiAndBundles(n, bi); d != "" {
+					fail("wire-roundtrip", "object="+strings.SplitN(d, ":", 2)[0], fmt.Sprintf("block #%d: %s", bi.Number, d))
+					return
+				}
 				blk := bi.Views[common.ZONE_CTX]
 				if blk == nil {
 					return
@@ -511,6 +520,180 @@ func checkStoredReceipts(n *Node, blk *types.WorkObject, bi *BlockInfo, bloomFin
 	}
 	if withLogs >= 2 {
 		simkit.Global.Inc("probe.block_with_logs_in_two_receipts")
+	}
+	return ""
+}
+
+// checkTerminiAndBundles round-trips, through their wire encodings, the termini every context stored for the block and
+// the pending-ETX bundle / rollup the dominant chains hold for it. Returns "" or "<object>: detail".
+func checkTerminiAndBundles(n *Node, bi *BlockInfo) string {
+	hashesEqual := func(a, b []common.Hash) bool {
+		if len(a) != len(b) {
+			return false
+		}
+		for i := range a {
+			if a[i] != b[i] {
+				return false
+			}
+		}
+		return true
+	}
+	for ctx := bi.Order; ctx <= common.ZONE_CTX; ctx++ {
+		t := rawdb.ReadTermini(n.DBs[ctx], bi.Hash)
+		if t == nil {
+			continue
+		}
+		raw, err := proto.MarshalOptions{Deterministic: true}.Marshal(t.ProtoEncode())
+		if err != nil {
+			return fmt.Sprintf("termini: ctx %d does not encode: %v", ctx, err)
+		}
+		pt := new(types.ProtoTermini)
+		if err := proto.Unmarshal(raw, pt); err != nil {
+			return fmt.Sprintf("termini: ctx %d does not unmarshal: %v", ctx, err)
+		}
+		var back types.Termini
+		if err := back.ProtoDecode(pt); err != nil {
+			return fmt.Sprintf("termini: ctx %d does not decode: %v", ctx, err)
+		}
+		if !hashesEqual(t.DomTermini(), back.DomTermini()) || !hashesEqual(t.SubTermini(), back.SubTermini()) {
+			return fmt.Sprintf("termini: ctx %d changed in the round trip: dom %x -> %x, sub %x -> %x", ctx, t.DomTermini(), back.DomTermini(), t.SubTermini(), back.SubTermini())
+		}
+		if raw2, _ := (proto.MarshalOptions{Deterministic: true}).Marshal(back.ProtoEncode()); !bytes.Equal(raw, raw2) {
+			return fmt.Sprintf("termini: ctx %d re-encodes differently", ctx)
+		}
+		simkit.Global.Inc("termini_roundtrips")
+	}
+	for _, ctx := range []int{common.REGION_CTX, common.PRIME_CTX} {
+		pe := n.Cores[ctx].GetPendingEtxs(bi.Hash)
+		if pe == nil {
+			continue
+		}
+		ppe, err := pe.ProtoEncode()
+		if err != nil {
+			return fmt.Sprintf("pending-etxs: ctx %d does not encode: %v", ctx, err)
+		}
+		raw, _ := proto.MarshalOptions{Deterministic: true}.Marshal(ppe)
+		p2 := new(types.ProtoPendingEtxs)
+		if err := proto.Unmarshal(raw, p2); err != nil {
+			return fmt.Sprintf("pending-etxs: ctx %d does not unmarshal: %v", ctx, err)
+		}
+		back := new(types.PendingEtxs)
+		if err := back.ProtoDecode(p2, locOf(ctx)); err != nil {
+			return fmt.Sprintf("pending-etxs: ctx %d does not decode: %v", ctx, err)
+		}
+		if back.Header == nil || back.Header.Hash() != pe.Header.Hash() || len(back.OutboundEtxs) != len(pe.OutboundEtxs) {
+			return fmt.Sprintf("pending-etxs: ctx %d bundle of %d ETXs for %x came back as %d ETXs", ctx, len(pe.OutboundEtxs), bi.Hash[:4], len(back.OutboundEtxs))
+		}
+		for i, e := range pe.OutboundEtxs {
+			if back.OutboundEtxs[i].Hash() != e.Hash() {
+				return fmt.Sprintf("pending-etxs: ctx %d ETX %d changes hash in the round trip", ctx, i)
+			}
+			if d := txFieldDiff(e, back.OutboundEtxs[i]); d != "" {
+				return fmt.Sprintf("pending-etxs: ctx %d ETX %d field %s differs after the round trip", ctx, i, d)
+			}
+		}
+		if pe.IsValid(trie.NewStackTrie(nil)) != back.IsValid(trie.NewStackTrie(nil)) {
+			return fmt.Sprintf("pending-etxs: ctx %d bundle validity changes in the round trip", ctx)
+		}
+		simkit.Global.Inc("pending_etx_bundle_roundtrips")
+	}
+	return ""
+}
+
+// p2pFrames builds the request / response frames of the peer protocol around block bi (request by hash and by number for
+// each answer type; answers carrying the block view, the header view, a list of block views, the hash, and empty answers).
+func p2pFrames(bi *BlockInfo) (names []string, frames [][]byte, err error) {
+	v := bi.Views[common.ZONE_CTX]
+	add := func(name string, raw []byte, e error) {
+		if e != nil && err == nil {
+			err = fmt.Errorf("%s: %v", name, e)
+		}
+		names, frames = append(names, name), append(frames, raw)
+	}
+	id := uint32(bi.Number)*7 + 1
+	for i, want := range []interface{}{&types.WorkObjectBlockView{}, &types.WorkObjectHeaderView{}, []*types.WorkObjectBlockView{}, common.Hash{}} {
+		raw, e := pb.EncodeQuaiRequest(id+uint32(i), LocZone, bi.Hash, want)
+		add(fmt.Sprintf("request-by-hash-%d", i), raw, e)
+		raw, e = pb.EncodeQuaiRequest(id+uint32(i), LocZone, new(big.Int).SetUint64(bi.Number), want)
+		add(fmt.Sprintf("request-by-number-%d", i), raw, e)
+	}
+	raw, e := pb.EncodeQuaiResponse(id, LocZone, &types.WorkObjectBlockView{}, v.ConvertToBlockView())
+	add("response-block", raw, e)
+	raw, e = pb.EncodeQuaiResponse(id, LocZone, &types.WorkObjectHeaderView{}, v.ConvertToHeaderView())
+	add("response-header", raw, e)
+	raw, e = pb.EncodeQuaiResponse(id, LocZone, []*types.WorkObjectBlockView{}, []*types.WorkObjectBlockView{v.ConvertToBlockView(), v.ConvertToBlockView()})
+	add("response-blocks", raw, e)
+	raw, e = pb.EncodeQuaiResponse(id, LocZone, &common.Hash{}, bi.Hash)
+	add("response-hash", raw, e)
+	raw, e = pb.EncodeQuaiResponse(id, LocZone, &types.WorkObjectBlockView{}, nil)
+	add("response-empty", raw, e)
+	return
+}
+
+// checkP2PFrames: every frame decodes to what was put in (id, location, selector, payload with equal hash).
+func checkP2PFrames(bi *BlockInfo) string {
+	names, frames, err := p2pFrames(bi)
+	if err != nil {
+		return "p2p-frame: does not encode: " + err.Error()
+	}
+	for i, raw := range frames {
+		msg, err := pb.DecodeQuaiMessage(raw)
+		if err != nil {
+			return fmt.Sprintf("p2p-frame: %s does not decode: %v", names[i], err)
+		}
+		switch {
+		case msg.GetRequest() != nil:
+			_, typ, loc, data, err := pb.DecodeQuaiRequest(msg.GetRequest())
+			if err != nil || typ == nil || !loc.Equal(LocZone) {
+				return fmt.Sprintf("p2p-frame: %s decodes to type %T location %v: %v", names[i], typ, loc, err)
+			}
+			switch d := data.(type) {
+			case *common.Hash:
+				if *d != bi.Hash {
+					return fmt.Sprintf("p2p-frame: %s asks for %x, was built for %x", names[i], d[:6], bi.Hash[:6])
+				}
+			case *big.Int:
+				if d.Uint64() != bi.Number {
+					return fmt.Sprintf("p2p-frame: %s asks for number %v, was built for %d", names[i], d, bi.Number)
+				}
+			default:
+				return fmt.Sprintf("p2p-frame: %s decodes to request data %T", names[i], data)
+			}
+		case msg.GetResponse() != nil:
+			_, payload, err := pb.DecodeQuaiResponse(msg.GetResponse())
+			if names[i] == "response-empty" {
+				if err == nil {
+					return "p2p-frame: an empty answer decodes to a payload"
+				}
+				continue
+			}
+			if err != nil {
+				return fmt.Sprintf("p2p-frame: %s does not decode: %v", names[i], err)
+			}
+			switch x := payload.(type) {
+			case *types.WorkObjectBlockView:
+				if x.Hash() != bi.Hash || len(x.Transactions()) != len(bi.Views[common.ZONE_CTX].Transactions()) {
+					return fmt.Sprintf("p2p-frame: %s carries block %x with %d transactions", names[i], x.Hash().Bytes()[:6], len(x.Transactions()))
+				}
+			case *types.WorkObjectHeaderView:
+				if x.Hash() != bi.Hash {
+					return fmt.Sprintf("p2p-frame: %s carries header %x", names[i], x.Hash().Bytes()[:6])
+				}
+			case []*types.WorkObjectBlockView:
+				if len(x) != 2 || x[0].Hash() != bi.Hash || x[1].Hash() != bi.Hash {
+					return fmt.Sprintf("p2p-frame: %s carries %d blocks", names[i], len(x))
+				}
+			case common.Hash:
+				if x != bi.Hash {
+					return fmt.Sprintf("p2p-frame: %s carries hash %x", names[i], x[:6])
+				}
+			default:
+				return fmt.Sprintf("p2p-frame: %s decodes to %T", names[i], payload)
+			}
+		default:
+			return fmt.Sprintf("p2p-frame: %s decodes to neither a request nor a response", names[i])
+		}
+		simkit.Global.Inc("p2p_frame_roundtrips")
 	}
 	return ""
 }
